@@ -192,8 +192,9 @@ def generate(rng, tier):
             ops.append({"op": "encode", "t": t})
     plan = {"prop": ID, "flavour": flavour, "ops": ops, "threads": None}
     p_thr = 0.15 if tier == "quick" else 0.3
-    if rng.random() < p_thr and flavour in ("private", "global_transformer", "global_encoder"):
-        ops = [o for o in ops if o["op"] in ("register", "resolve", "convert", "encode")][:6]
+    thr_ops = [o for o in ops if o["op"] in ("register", "resolve", "convert", "encode")][:6]
+    if rng.random() < p_thr and flavour in ("private", "global_transformer", "global_encoder") and len(thr_ops) >= 2:
+        ops = thr_ops
         for o in ops:
             o.pop("conv_fail", None)
             if o["op"] == "register" and o["spec"].get("detector"):
